@@ -128,7 +128,7 @@ Definition member_ok (fl : flavour) (with_ext : bool) (kv : bytes * json) : bool
 Definition shape_ok (fl : flavour) (with_ext : bool) (j : json) : bool :=
   match j with
   | JNull => true
-  | JObj l => forallb (member_ok fl with_ext) l
+  | JObj l => forallb (member_ok fl with_ext) (fold_members fl l)     (* names as the library compares them *)
   | _ => false
   end.
 
